@@ -264,7 +264,58 @@ type tr08 struct {
 	close func()
 	armed *atomic.Bool // pipeline: the next successful reservation on a pooled connection is followed by the server closing it
 	extra *int32       // attempts that ended before anything was written (armed reservations)
+	// pipeline: if set (before the first query), every dialed connection passes through it (idx = 0 for the first dial)
+	wrapDc func(idx int, dc transport.DnsConn) transport.DnsConn
+	dials  int32
 }
+
+// gateDnsConn08 is the connection a (slow) dial returns: the first ReserveNewQuery call on it is
+// descheduled at its entry (a legal schedule) until `need` further calls have returned, or maxHold
+// has passed. That is the moment "the dial has just finished": the queries that queued up behind
+// the dial are on their way to the dialed connection, and other callers arrive.
+type gateDnsConn08 struct {
+	inner   transport.DnsConn
+	need    int
+	maxHold time.Duration
+
+	mu        sync.Mutex
+	calls     int
+	completed int
+	firstIn   chan struct{}
+	release   chan struct{}
+}
+
+func newGateDnsConn08(inner transport.DnsConn, need int, maxHold time.Duration) *gateDnsConn08 {
+	return &gateDnsConn08{inner: inner, need: need, maxHold: maxHold, firstIn: make(chan struct{}), release: make(chan struct{})}
+}
+
+func (g *gateDnsConn08) ReserveNewQuery() (transport.ReservedExchanger, bool) {
+	g.mu.Lock()
+	g.calls++
+	first := g.calls == 1 && g.need > 0
+	g.mu.Unlock()
+	if first {
+		close(g.firstIn)
+		tm := time.NewTimer(g.maxHold)
+		select {
+		case <-g.release:
+		case <-tm.C:
+		}
+		tm.Stop()
+	}
+	rx, cl := g.inner.ReserveNewQuery()
+	if !first {
+		g.mu.Lock()
+		g.completed++
+		if g.completed == g.need {
+			close(g.release)
+		}
+		g.mu.Unlock()
+	}
+	return rx, cl
+}
+
+func (g *gateDnsConn08) Close() error { return g.inner.Close() }
 
 // armDnsConn wraps the real TraditionalDnsConn: when armed, the server closes
 // the connection right after a slot was reserved on it and before the query is written.
@@ -313,7 +364,12 @@ func mk08(kind string, s *srv08, maxq int) *tr08 {
 			return nil, err
 		}
 		dc := transport.NewDnsConn(transport.TraditionalDnsConnOpts{WithLengthHeader: kind != "pipeline-udp", IdleTimeout: 10 * time.Second, MaxConcurrentQuery: maxq}, s.wrap(c))
-		return &armDnsConn{inner: dc, fake: c, armed: t.armed, extra: t.extra}, nil
+		var out transport.DnsConn = &armDnsConn{inner: dc, fake: c, armed: t.armed, extra: t.extra}
+		idx := int(atomic.AddInt32(&t.dials, 1)) - 1
+		if t.wrapDc != nil {
+			out = t.wrapDc(idx, out)
+		}
+		return out, nil
 	}})
 	t.ex, t.close = tp.ExchangeContext, func() { tp.Close() }
 	return t
@@ -584,6 +640,142 @@ func parked08(r *Run, check func(string, res08, string, int, map[string]any, int
 		t.close()
 		return
 	}
+}
+
+// lateAtDial08: nothing fails anywhere. n queries queue up behind a slow dial (a held handshake) of a pipeline
+// connection that takes L queries at a time (queue limit while dialing = L as well); the first of them opened the
+// connection. The dial succeeds; one queued query is descheduled on its way into the dialed connection, and at that
+// moment k further queries arrive. The server answers every query it receives (after all of them were written or
+// returned), no connection is ever closed, contexts are long, the transport stays open: none of the four reasons the
+// statement admits for a failure exists, so every query must return its own reply.
+func lateAtDial08(r *Run, kind string, L, n, k int, hold time.Duration, idx int) {
+	s := newSrv08()
+	t := mk08(kind, s, L)
+	var gd atomic.Pointer[gateDnsConn08]
+	t.wrapDc = func(i int, dc transport.DnsConn) transport.DnsConn {
+		if i != 0 {
+			return dc
+		}
+		g := newGateDnsConn08(dc, n, hold) // released when the other queued queries and one late caller are through
+		gd.Store(g)
+		return g
+	}
+	s.setDefault("hold")
+	s.holdDials()
+	total := n + k
+	results := make([]res08, total)
+	var finished int32
+	var wg sync.WaitGroup
+	start := func(i int) {
+		wg.Add(1)
+		go func() {
+			defer wg.Done()
+			ctx, cancel := context.WithTimeout(context.Background(), 6*time.Second)
+			defer cancel()
+			results[i] = t.query(ctx)
+			atomic.AddInt32(&finished, 1)
+		}()
+	}
+	meter := startStallMeter()
+	start(0) // opens the connection
+	setup := s.waitHeldDials(1, 3*time.Second)
+	for i := 1; i < n; i++ {
+		start(i)
+	}
+	time.Sleep(time.Duration(1+r.Rng.Intn(3)) * time.Millisecond) // they queue up on the dialing connection
+	s.letDialsFinish()
+	firstSeen := false
+	deadline := time.Now().Add(3 * time.Second)
+	for time.Now().Before(deadline) {
+		if g := gd.Load(); g != nil {
+			select {
+			case <-g.firstIn:
+				firstSeen = true
+			case <-time.After(time.Until(deadline)):
+			}
+			break
+		}
+		time.Sleep(100 * time.Microsecond)
+	}
+	for i := 0; i < k; i++ { // the late callers
+		start(n + i)
+	}
+	settled := false
+	deadline = time.Now().Add(5 * time.Second)
+	for time.Now().Before(deadline) {
+		if s.writes()+int(atomic.LoadInt32(&finished)) >= total {
+			settled = true
+			break
+		}
+		time.Sleep(200 * time.Microsecond)
+	}
+	s.setDefault("answer")
+	s.setAll("answer")
+	s.release()
+	wg.Wait()
+	stall := meter.Stop()
+	nconns := len(s.live())
+	valid := setup
+	for _, res := range results {
+		valid = valid && !res.ctxEnded
+	}
+	sched := "the first call into ReserveNewQuery of the dialed connection is held at its entry until " + fmt.Sprint(n) + " other calls are through (at most " + hold.String() + "); the late queries start when it got there"
+	refused := 0 // queued queries that came back with an error and were never transmitted
+	for i, res := range results {
+		role := "late caller"
+		if i == 0 {
+			role = "opened the connection"
+		} else if i < n {
+			role = "queued while dialing"
+		}
+		line, cnt := classify08(kind, s, res, 0, 0)
+		s.mu.Lock()
+		ord := append([]int(nil), s.order[res.tag]...)
+		answered, fresh := 0, false
+		for _, id := range ord {
+			if s.replied[fmt.Sprintf("%d/%d", id, res.tag)] {
+				answered++
+			}
+			fresh = !s.born[id].Before(res.started)
+		}
+		s.mu.Unlock()
+		desc := map[string]any{"transport": kind, "scenario": "late-caller-at-dial-completion: no fault anywhere; queries queued behind a held dial, the dial succeeds, further queries arrive at that moment",
+			"connection_limit": L, "queue_limit_while_dialing": L, "queued_queries": n, "late_queries": k, "this_query": i, "role": role, "schedule": sched,
+			"connections_written_on": fmt.Sprint(ord), "of_which_the_server_answered": answered, "connections_alive_at_the_end": nconns, "hold_seen": firstSeen, "settled": settled,
+			"result": line, "err": fmt.Sprint(res.err), "took": res.took.String()}
+		if cnt > 4 {
+			r.Fail("a query was transmitted on more than 4 connections", desc)
+		}
+		if res.ok && !res.own {
+			r.Fail("the exchange returned something other than the reply to its own query", desc)
+		}
+		if !res.ok && !res.ctxEnded && !errors.Is(res.err, transport.ErrClosedTransport) && answered == len(ord) {
+			// nothing it was transmitted on failed (or nothing was transmitted at all)
+			r.Fail("an exchange reported failure although no connection failed, no attempt for it failed (the server answers every query it receives; this one was transmitted "+fmt.Sprint(len(ord))+" time(s)), its context is alive and the transport is open", desc)
+			r.Count(kind + ":late-at-dial:failed-without-a-failed-attempt")
+		}
+		if i < n && !res.ok && len(ord) == 0 {
+			refused++
+		}
+		if valid {
+			turn := "pooled1"
+			if i == 0 || (len(ord) > 0 && fresh) {
+				turn = "fresh1"
+			}
+			r.Line("loop pipeline "+turn, line)
+		}
+		r.Eval(fmt.Sprintf("L/%s/%d/%d/%d/%d/%d", kind, L, n, k, idx, i), i == 0 || i >= n)
+		r.Trace()
+	}
+	if valid { // the hand-over model (Model.C08.Handoff) under the same schedule: how many queued queries find no slot
+		r.Line(fmt.Sprintf("handoff %d %d %d", n, L, k), fmt.Sprintf("refused=%d", refused))
+	}
+	r.Count(kind + ":late-at-dial")
+	r.Count(fmt.Sprintf("late-at-dial:queue-full:%v", n == L))
+	if !valid || !firstSeen || !settled || stall > time.Second {
+		r.Count(fmt.Sprintf("late-at-dial:note(setup=%v,valid=%v,hold-seen=%v,settled=%v,stall>1s=%v)", setup, valid, firstSeen, settled, stall > time.Second))
+	}
+	t.close()
 }
 
 func rep08(turn string, n int) []string {
@@ -999,6 +1191,24 @@ func runC08(r *Run) {
 			}
 			t.close()
 		}
+		// ---- L: nothing fails: a full (or partly filled) queue behind a slow dial, late callers at the moment the dial succeeds
+		lkinds := []string{"pipeline"}
+		if r.Thorough() || rep == 0 {
+			lkinds = append(lkinds, "pipeline-udp")
+		}
+		for _, kind := range lkinds {
+			for li := 0; li < r.N(3, 6); li++ {
+				L := 1
+				if r.Rng.Intn(2) == 0 {
+					L = 2 + r.Rng.Intn(2)
+				}
+				n := L
+				if r.Rng.Intn(4) == 0 {
+					n = 1 + r.Rng.Intn(L)
+				}
+				lateAtDial08(r, kind, L, n, 1+r.Rng.Intn(2), time.Duration(r.N(60, 100))*time.Millisecond, rep*100+li)
+			}
+		}
 	}
-	r.Finish("transports {ReuseConnTransport, PipelineTransport over TraditionalDnsConn} x server scripts {k = 0..6 pooled connections silently dead (write accepted then closed / reset on write) followed by a fresh connection that works / fails / cannot be dialed; closed while idle; closed right after a reply; transport closed; silent pooled connections + caller's context ends; closed with j queries in flight (with and without the opener among them, Close() of the connection fast or slow); dies between reservation and write; j concurrent queries over k dead idle connections; p = 1..3 callers cancelled while their connections are being dialed (held handshake), the dials finish afterwards and leave connections that never carried a query in the pool next to k0 that did, the server drops them on the next write / while idle / keeps them (fixed or random per connection), then a query (pipeline: also one that arrives during the dial); random sequential streams with bursts}; per query: connections its bytes were written on, result class; the model runs on the enforced (or observed) environment")
+	r.Finish("transports {ReuseConnTransport, PipelineTransport over TraditionalDnsConn} x server scripts {k = 0..6 pooled connections silently dead (write accepted then closed / reset on write) followed by a fresh connection that works / fails / cannot be dialed; closed while idle; closed right after a reply; transport closed; silent pooled connections + caller's context ends; closed with j queries in flight (with and without the opener among them, Close() of the connection fast or slow); dies between reservation and write; j concurrent queries over k dead idle connections; p = 1..3 callers cancelled while their connections are being dialed (held handshake), the dials finish afterwards and leave connections that never carried a query in the pool next to k0 that did, the server drops them on the next write / while idle / keeps them (fixed or random per connection), then a query (pipeline: also one that arrives during the dial); random sequential streams with bursts; no fault at all: n <= L queries queued behind a held dial of a pipeline connection (tcp framing and datagram) that takes L = 1..3 queries, the first of them opened it, the dial succeeds, one queued query is descheduled on its way into the dialed connection and 1..2 further queries arrive at that moment, replies held until every query was written or returned: every query must return its own reply (replayed on the loop model as fresh1 / pooled1 and on the hand-over model Model.C08.Handoff)}; per query: connections its bytes were written on, result class; the model runs on the enforced (or observed) environment")
 }
